@@ -76,6 +76,7 @@ pub fn run(ctx: &Ctx) -> i32 {
         cfg.max_w = 12;
         cfg.max_h = 12;
         cfg.max_cel = 8;
+        cfg.big = true;
         cfg.extremes = false;
         cfg.max_layers = 6;
         cfg.max_frames = 6;
